@@ -1,7 +1,7 @@
 #!/usr/bin/env python3
 # Turns seeded/RESULTS.raw (output of run_seeded.sh) into seeded/RESULTS.md and refreshes the caught_by field of every meta.json.
 import json, os, re, collections
-root = '/verif/seeded'
+root = os.environ.get('VERIF_ROOT','/verif') + '/seeded'
 raw = open(os.path.join(root, 'RESULTS.raw')).read().splitlines() if os.path.exists(os.path.join(root, 'RESULTS.raw')) else []
 res = collections.OrderedDict()
 cur = None
